@@ -9,7 +9,7 @@ import sys
 ROOT = os.path.join(os.path.dirname(os.path.dirname(os.path.abspath(__file__))), "coq", "theories")
 
 
-STANDALONE = {"AckProofs", "LocksProofs", "LedgerProofs", "LedgerUpdProofs", "PoolProofs", "WindowProofs", "MicroProofs", "MicroStats", "MicroBound", "PrecondProofs"}
+STANDALONE = {"AckProofs", "LocksProofs", "LedgerProofs", "LedgerUpdProofs", "PoolProofs", "WindowProofs", "MicroProofs", "MicroStats", "MicroBound", "MicroBal", "PrecondProofs"}
 
 
 def statements(modname):
@@ -110,6 +110,9 @@ spec("C08_micro", "put_or_update behind the flag check is Window.v's first half"
 ])
 spec("C01_micro", "The bound on the total under every interleaving of the micro steps of puts, deletes and reads", [M, "MicroBound"], [
     ("MicroBound", "micro_used_bounded_run", None), (M, "micro_accounting_exact", None), (M, "mput_atomic", None),
+])
+spec("C16_micro", "Key and weight balances at every state of every micro schedule, all windows included", [M, "MicroBal"], [
+    ("MicroBal", "mbal_step", None), ("MicroBal", "micro_balances_run", None),
 ])
 spec("C15_micro", "Hit accounting with reads split between the store lookup and the access record", [M, "MicroStats"], [
     ("MicroStats", "micro_hits_accounted_run", None), ("MicroStats", "read_in_flight_witness", None), (M, "mcall_atomic", None),
